@@ -67,7 +67,14 @@ fn apply_real<const N: usize>(b: &mut ArrayBuf<N>, op: &BufOp) -> Option<bool> {
             None
         }
         BufOp::FromIter(s) => {
-            *b = s.0.iter().copied().collect::<ArrayBuf<N>>();
+            if s.len() % 2 == 1 {
+                // an iterator that yields at most N bytes but cannot promise so up front
+                // (size_hint upper bound = length of the underlying source > N)
+                let total = s.len() + N + 3;
+                *b = (0..total).filter_map(|i| s.0.get(i).copied()).collect::<ArrayBuf<N>>();
+            } else {
+                *b = s.0.iter().copied().collect::<ArrayBuf<N>>();
+            }
             None
         }
     }
